@@ -5,6 +5,8 @@ package resources
 
 import (
 	"context"
+	"fmt"
+	"strconv"
 
 	"github.com/NVIDIA/KAI-scheduler/pkg/common/constants"
 
@@ -29,6 +31,12 @@ func ExtractGPUSharingReceivedResources(ctx context.Context, pod *v1.Pod, kubeCl
 	}
 
 	fractionResource, err := calculateAllocatedFraction(ctx, pod, kubeClient)
+	if countStr, found := pod.Annotations[constants.GpuFractionsNumDevices]; found && err == nil {
+		count, parseErr := strconv.ParseInt(countStr, 10, 64)
+		if parseErr != nil || !fractionResource.Mul(count) {
+			return resources, fmt.Errorf("invalid %s annotation value <%s>", constants.GpuFractionsNumDevices, countStr)
+		}
+	}
 	resources[constants.NvidiaGpuResource] = fractionResource
 	return resources, err
 }
